@@ -109,6 +109,46 @@ def outcome(rule_name, make):
     return res
 
 
+def inner_outcome(make):
+    """the node made by `make` validated as an INNER node: it replaces a child of a minimal valid host tree and
+    validate.tree runs from the host's root, fail-fast and collecting.  -> None when no rule permits the element as a
+    child, else [(kind, detail), (kind, detail)] like outcome(); collecting errors are those reported for the test node"""
+    from . import treegen
+    T = treegen.tables()
+    Node.store.clear()
+    probe = make()
+    host = T.host_spec(probe.name) if R.node_mappings.get(probe.name) else None
+    if host is None:
+        return None
+    sp, idx = host
+    res = []
+    for mode in (0, 1):
+        Node.store.clear()
+        root = treegen.build(sp)
+        n = make()
+        # the walk goes on below the test node: give every child of a known name a minimal valid subtree, so that
+        # whatever a fail-fast walk raises first is raised for the test node or not at all
+        for i, c in enumerate(list(n.children)):
+            if not c.children and c.content is None and T.known.get(c.name) and T.cost.get(c.name, treegen.INF) < treegen.INF:
+                sub = treegen.build(T.min_spec(c.name))
+                n.replace_child(c, sub)
+        old = root.children[idx]
+        root.replace_child(old, n)
+        errs = [] if mode else None
+        try:
+            validate.tree(root, errs)
+            if mode:
+                mine = [e for e in errs if isinstance(e, tuple) and len(e) >= 3 and e[2] is n]
+                res.append(("ok", None) if not mine else ("errs", mine))
+            else:
+                res.append(("ok", None))
+        except MetapypeRuleError as e:
+            res.append(("rule", e) if not mode else ("EXC", "raised in collecting mode: " + repr(e)))
+        except Exception as e:  # noqa
+            res.append(("EXC", type(e).__name__ + ": " + str(e)[:200]))
+    return res
+
+
 def warmup():
     """exercise every rule the way a long run does (construct, validate a minimal tree of every element in both modes,
     probe insertion indexes with allowed and foreign names), so that state carried between calls is populated"""
